@@ -73,11 +73,14 @@ class Ctx:
         if key in self._bins:
             return self._bins[key]
         env = goenv()
-        # go.sum of the repository is the only checksum source available offline
-        shutil.copyfile(os.path.join(REPO, "go.sum"), os.path.join(HARNESS, "go.sum"))
+        # private go.mod/go.sum (go.sum of the repository is the only checksum source offline);
+        # VERIF_REPO selects the tree under test (default /repo)
+        modfile = self.path("go.mod")
+        open(modfile, "w").write(open(os.path.join(HARNESS, "go.mod")).read().replace("=> /repo", "=> " + REPO))
+        shutil.copyfile(os.path.join(REPO, "go.sum"), self.path("go.sum"))
         name = "vh" + ("-race" if race else "") + ("-generic" if overlay_generic else "")
         out = self.path(name)
-        cmd = ["go", "build", "-tags", ",".join(tags), "-o", out]
+        cmd = ["go", "build", "-modfile", modfile, "-tags", ",".join(tags), "-o", out]
         if race:
             cmd.append("-race")
         if overlay_generic:
